@@ -1614,7 +1614,37 @@ func (ex *Exec) pow2Term(y *Term, bits int) *Term {
 	return App(name, IntSort, y)
 }
 
+// mapIteConst applies f to the constant leaves of a tree of ite's over constants (a value chosen by a case
+// distinction, such as an attribute that is a function of a kind); nil if t is not of that shape.
+func mapIteConst(t *Term, depth int, f func(*Term) *Term) *Term {
+	if t.IsConst() {
+		return f(t)
+	}
+	if t.Op == "ite" && len(t.Args) == 3 && depth < 64 {
+		l := mapIteConst(t.Args[1], depth+1, f)
+		if l == nil {
+			return nil
+		}
+		r := mapIteConst(t.Args[2], depth+1, f)
+		if r == nil {
+			return nil
+		}
+		return Ite(t.Args[0], l, r)
+	}
+	return nil
+}
+
 func (ex *Exec) intBitop(op token.Token, a, b *Term, bits int, signed bool) *Term {
+	// a constant combined with a case distinction over constants: computed per case
+	if a.IsConst() != b.IsConst() {
+		if a.IsConst() {
+			if r := mapIteConst(b, 0, func(k *Term) *Term { return ex.intBitop(op, a, k, bits, signed) }); r != nil {
+				return r
+			}
+		} else if r := mapIteConst(a, 0, func(k *Term) *Term { return ex.intBitop(op, k, b, bits, signed) }); r != nil {
+			return r
+		}
+	}
 	// constant masks of the form 2^k-1 on non-negative values: x & mask = x mod 2^k
 	if op == token.AND && !signed {
 		for _, p := range [][2]*Term{{a, b}, {b, a}} {
